@@ -101,6 +101,7 @@ class C12(Prop):
                    "binary64: termination of the counting loop is established per executed case (fuel not exhausted), not by a theorem"]
 
     def gen(self, tier, rng):
+        self._tier = tier
         maxlen = 200 if tier == "quick" else 10000
         reps = 7 if tier == "quick" else 120
         for rep in range(reps):
@@ -117,6 +118,23 @@ class C12(Prop):
                 yield mk_strategy_case(name, et, [5] * 7 if et != "n64" else [0.3] * 7, lay1(7))
                 yield mk_strategy_case(name, et, [3] if et != "n64" else [0.1], lay1(1))
                 yield mk_strategy_case(name, et, ([1] * 10 + [2]) if et != "n64" else ([0.5] * 10 + [0.75]), lay1(11))
+        # a bulk with a small but non-zero inter-quartile range plus a far outlier: the Freedman-Diaconis width is
+        # tiny relative to the range, so the grid has about 70 000 bins (nothing may cap or truncate it); the
+        # outlier is placed so that the count stays within what the model evaluates in about a minute
+        for rep in range(1 if tier == "quick" else 3):
+            for name, et in (("fd", "i64"), ("auto", "n64"), ("auto", "i32"), ("fd", "n64"))[:2 if tier == "quick" else 4]:
+                m = rng.range(25, 40)
+                bulk = [rng.range(0, 100) for _ in range(m)]
+                w = advised_width_int("fd", bulk + [10 ** 6])
+                if not w:
+                    continue
+                far = min(bulk) + w * rng.range(66000, 72000)
+                if advised_width_int("fd", bulk + [far]) != w:
+                    continue
+                data = bulk + [far]
+                if et == "n64":
+                    data = [v / 8.0 for v in data]
+                yield mk_strategy_case(name, et, data, lay1(len(data)))
         # GridBuilder with 1-3 columns
         for rep in range(10 if tier == "quick" else 400):
             for name in STRATS:
@@ -318,6 +336,14 @@ class C12(Prop):
         else:
             return "false"
         case._w = w
+        if o["tag"] == "OK" and o["nb"] > 20000 and (et == "n64" or getattr(self, "_tier", "quick") == "quick"):
+            # the model (unary indexes, insertion sort of the edges) needs minutes for ~70 000 bins: the quick tier
+            # and the binary64 instance leave these cases to the oracle; the thorough tier evaluates the integer model
+            return None
+        if o["tag"] == "OK" and len(edges) > 2000:
+            ws = sum((i + 1) * e for i, e in enumerate(edges))
+            dig = obs[:4] + [len(edges), edges[0], edges[-1], sum(edges), ws]
+            return "chksd (%s) %s" % (self._model(case, w), zlist(dig))
         return "chks (%s) %s" % (self._model(case, w), zlist(obs))
 
     def _model(self, case, w):
